@@ -1185,6 +1185,19 @@ func (s *SecureChannel) sendAsyncWithTimeout(
 		return nil, err
 	}
 
+	chunks, err := m.EncodeChunks(instance.maxBodySize)
+	if err != nil {
+		return nil, err
+	}
+
+	// Refuse to send what the server has announced not to accept. The
+	// sequence number taken for the first chunk has not been used on the wire.
+	if err := s.checkPeerLimits(m, chunks); err != nil {
+		instance.sequenceNumber = m.SequenceHeader.SequenceNumber - 1
+		debug.Printf("uasc %d/%d: not sending %T: %v", s.c.ID(), reqID, req, err)
+		return nil, ua.StatusBadRequestTooLarge
+	}
+
 	var resp chan *MessageBody
 
 	if respRequired {
@@ -1208,11 +1221,6 @@ func (s *SecureChannel) sendAsyncWithTimeout(
 				s.popHandler(reqID)
 			}
 		}()
-	}
-
-	chunks, err := m.EncodeChunks(instance.maxBodySize)
-	if err != nil {
-		return nil, err
 	}
 
 	for i, chunk := range chunks {
@@ -1275,15 +1283,22 @@ func (s *SecureChannel) writeMessageChunks(ctx context.Context, instance *channe
 	// Large service payloads may exceed a single UASC message body. Encode the
 	// full logical message up front, then stream each chunk in sequence while the
 	// caller holds the channel-instance lock.
-	//
-	// TODO: enforce the negotiated MaxMessageSize / MaxChunkCount here and abort
-	// with Bad_ResponseTooLarge instead of writing an over-limit chunk stream.
-	// These limits are already enforced on the receive path (see the chunk-count
-	// and message-size checks in Receive) but not on send (OPC UA Part 6 §6.7.2;
-	// cf. open62541 adjustCheckMessageLimitsSym, .NET MessageLimitsExceeded).
 	chunks, err := m.EncodeChunks(instance.maxBodySize)
 	if err != nil {
 		return 0, err
+	}
+
+	// Refuse to send what the peer has announced not to accept instead of
+	// writing an over-limit chunk stream (OPC UA Part 6 §6.7.2; cf. open62541
+	// adjustCheckMessageLimitsSym, .NET MessageLimitsExceeded). The sequence
+	// number taken for the first chunk has not been used on the wire.
+	if err := s.checkPeerLimits(m, chunks); err != nil {
+		instance.sequenceNumber = m.SequenceHeader.SequenceNumber - 1
+		debug.Printf("uasc %d/%d: not sending %T: %v", s.c.ID(), reqID, body, err)
+		if s.kind == server {
+			return 0, ua.StatusBadResponseTooLarge
+		}
+		return 0, ua.StatusBadRequestTooLarge
 	}
 
 	var bytesSent int
@@ -1328,6 +1343,30 @@ func (s *SecureChannel) writeMessageChunks(ctx context.Context, instance *channe
 	debug.Printf("uasc %d/%d: send %T with %d bytes in %d chunks", s.c.ID(), reqID, body, bytesSent, len(chunks))
 
 	return bytesSent, nil
+}
+
+// checkPeerLimits verifies that a chunked message does not exceed the maximum
+// message size and the maximum chunk count announced by the peer in the
+// HEL/ACK handshake. A limit of zero means that there is no limit. The
+// message size is the size of the unencrypted message body.
+func (s *SecureChannel) checkPeerLimits(m *Message, chunks [][]byte) error {
+	if m.Header.MessageType != MessageTypeMessage {
+		return nil
+	}
+	if max := s.c.PeerMaxChunkCount(); max > 0 && uint32(len(chunks)) > max {
+		return errors.Errorf("too many chunks: %d > %d", len(chunks), max)
+	}
+	if max := s.c.PeerMaxMessageSize(); max > 0 {
+		const hdrlen = 24 // message header, symmetric security header and sequence header
+		var size uint64
+		for _, chunk := range chunks {
+			size += uint64(len(chunk) - hdrlen)
+		}
+		if size > uint64(max) {
+			return errors.Errorf("message too large: %d > %d", size, max)
+		}
+	}
+	return nil
 }
 
 func (s *SecureChannel) SendResponseWithContext(ctx context.Context, reqID uint32, resp ua.Response) error {
